@@ -176,6 +176,69 @@ theorem CpsOkT.sorted_abs {cps : List T_chaincfg_Checkpoint} (ok : CpsOkT cps) :
     have := hn _ (List.mem_cons_self ..)
     simp only [absCp]; omega
 
+/-! ### areHeadersConnected -/
+
+/-- every header but the first names the hash of the one before it -/
+def hdrLinked (hash : Option T_wire_BlockHeader → Atom) : List (Option T_wire_BlockHeader) → Bool
+  | [] => true
+  | [_] => true
+  | a :: b :: rest => decide ((deref b).PrevBlock = hash a) && hdrLinked hash (b :: rest)
+
+def chainFrom (hash : Option T_wire_BlockHeader → Atom) (last : Atom) : List (Option T_wire_BlockHeader) → Bool
+  | [] => true
+  | b :: rest => decide ((deref b).PrevBlock = last) && chainFrom hash (hash b) rest
+
+theorem hdrLinked_cons (hash : Option T_wire_BlockHeader → Atom) (a : Option T_wire_BlockHeader)
+    (rest : List (Option T_wire_BlockHeader)) : hdrLinked hash (a :: rest) = chainFrom hash (hash a) rest := by
+  induction rest generalizing a with
+  | nil => rfl
+  | cons b rest ih => simp only [hdrLinked, chainFrom, ih]
+
+theorem connected_loop (hash : Option T_wire_BlockHeader → Atom) (hs : List (Option T_wire_BlockHeader))
+    (hnz : ∀ h ∈ hs, hash h ≠ 0) (last : Atom) (hl : last ≠ 0) :
+    (match areHeadersConnected_loop1 hash 0 hs last with
+     | Ctl.ret r => r
+     | Ctl.fall _ => true) = chainFrom hash last hs := by
+  induction hs generalizing last with
+  | nil => rfl
+  | cons b rest ih =>
+    unfold areHeadersConnected_loop1
+    simp only [hl, ↓reduceIte, chainFrom]
+    by_cases hp : (deref b).PrevBlock = last
+    · simp only [hp, ↓reduceIte, decide_true, Bool.true_and]
+      exact ih (fun h hh => hnz h (List.mem_cons_of_mem _ hh)) (hash b) (hnz b (List.mem_cons_self ..))
+    · simp [hp]
+
+/-- **`areHeadersConnected` as the code spells it** is the link test, provided no header hashes to
+the all-zero hash (the code uses the zero hash as its "not yet set" sentinel) -/
+theorem trans_areHeadersConnected (hash : Option T_wire_BlockHeader → Atom) (hs : List (Option T_wire_BlockHeader))
+    (hnz : ∀ h ∈ hs, hash h ≠ 0) : areHeadersConnected hs hash = hdrLinked hash hs := by
+  unfold areHeadersConnected
+  cases hs with
+  | nil => rfl
+  | cons a rest =>
+    have h0 : (default : Atom) = 0 := rfl
+    simp only [h0]
+    unfold areHeadersConnected_loop1
+    simp only [↓reduceIte, hdrLinked_cons]
+    exact connected_loop hash rest (fun h hh => hnz h (List.mem_cons_of_mem _ hh)) (hash a) (hnz a (List.mem_cons_self ..))
+
+/-- … which is the model's `linked` over the headers' ids, for every table whose parent relation is
+the headers' `PrevBlock` -/
+theorem hdrLinked_eq_linked (t : Tbl) (hash : Option T_wire_BlockHeader → Atom) (hs : List (Option T_wire_BlockHeader))
+    (hp : ∀ b ∈ hs, t.parent (hash b) = some (deref b).PrevBlock) : hdrLinked hash hs = linked t (hs.map hash) := by
+  induction hs with
+  | nil => rfl
+  | cons a rest ih =>
+    cases rest with
+    | nil => rfl
+    | cons b rest =>
+      have hb := hp b (List.mem_cons_of_mem _ (List.mem_cons_self ..))
+      simp only [hdrLinked, List.map_cons, linked, hb]
+      rw [ih (fun x hx => hp x (List.mem_cons_of_mem _ hx))]
+      simp only [List.map_cons]
+      by_cases h : (deref b).PrevBlock = hash a <;> simp [h]
+
 /-! ### BlockHeadersSynced -/
 
 theorem idx_last_eq (cps : List T_chaincfg_Checkpoint) (hne : cps ≠ []) :
